@@ -86,6 +86,11 @@ def pair_plan(p, tier, rng):
     for _ in range(20 if tier == "quick" else 200):
         a, b = rng.sample(misc, 2)
         out.append(("misc", a, b))
+    # seeded draws against each other (each caller brings its own generator)
+    draws = [i for i, d in enumerate(p) if d["fn"] in ("random", "bban_random") and d.get("seed")]
+    for _ in range(10 if tier == "quick" else 120):
+        a, b = rng.sample(draws, 2)
+        out.append(("shared-draws", a, b))
     return out
 
 
@@ -190,6 +195,22 @@ def run_explore(shard, mon, S, p):
         except Exception as e:  # noqa: BLE001
             mon.notes["unknown_algorithms"] = repr(e)[:200]
     ids = sorted({i for _, a, b in shard["pairs"] for i in (a, b)})
+    if shard["_name"][-1] in "13579":
+        # every second explore shard works in a process that has been used before: draws and generation for
+        # every country (those without published positions included), look-ups, failing calls
+        from random import Random as _R  # noqa: PLC0415
+
+        from vf.ref import data as _D  # noqa: PLC0415
+
+        for cc_ in sorted(_D.countries()):
+            for f_ in (lambda: S.IBAN.random(cc_, random=_R(7)), lambda: S.IBAN.random(cc_, random=_R(8), use_registry=False), lambda: S.IBAN.generate(cc_, bank_code="1", account_code="1")):
+                try:
+                    f_()
+                except Exception:  # noqa: BLE001, S110
+                    pass
+        for d_ in [x for x in p if x["fn"] in ("registry_fail", "from_bank_code", "bban")][:40]:
+            calls.execute(S, d_)
+        mon.tally("explore_shards_in_a_used_process")
     before = solo_digests(S, p, ids)
     sched = Scheduler(env.PKG, gran)
     sched.install()
@@ -284,6 +305,8 @@ def run_stress(shard, mon, S, p):
     rng = env.rng("C14", "stress", shard["part"])
     fam = [i for i, d in enumerate(p) if d["fn"] in ("algo", "iban", "iban_validate", "from_bank_code", "candidates", "generate", "random", "bic", "iban_lookup", "bban")]
     ids = rng.sample(fam, min(len(fam), 240))
+    # seeded draws (own generator per call) for every kind of country, the ones without published positions included
+    ids += [i for i, d in enumerate(p) if d["fn"] in ("random", "bban_random") and d.get("seed") == "s0"]
     # make sure stateful German methods are densely represented
     ids += [i for i, d in enumerate(p) if d["fn"] == "algo" and d["key"] in ("DE:02", "DE:16", "DE:23", "DE:25", "DE:04", "DE:14", "DE:07")]
     want = solo_digests(S, p, ids)
